@@ -391,7 +391,8 @@ type ritem struct {
 	b      *ssa.BasicBlock
 	start  int
 	facts  [2]rfact
-	k      string // knowledge about the tracked enum fact (ReachFact)
+	k      string     // knowledge about the tracked enum fact (ReachFact)
+	pf     *pathFacts // nil-ness / truth of values this path has tested (pathfacts.go)
 	parent int
 }
 
@@ -406,6 +407,8 @@ func (it *ritem) key() string {
 			fmt.Fprintf(&sb, "%p=%p;", f.call, f.ret)
 		}
 	}
+	sb.WriteString("|")
+	sb.WriteString(it.pf.key())
 	return sb.String()
 }
 
@@ -509,9 +512,6 @@ func Reach(fn *ssa.Function, from ssa.Instruction, target func(ssa.Instruction) 
 	if len(fn.Blocks) == 0 {
 		return nil, false
 	}
-	if len(RegionOf(fn).Fns) == 1 {
-		return reachLocal(fn, from, target, blocked, barrier)
-	}
 	return reachRegion(fn, from, target, blocked, barrier, nil, "", nil)
 }
 
@@ -550,6 +550,7 @@ var startBlock *ssa.BasicBlock // set by ReachFromBlock for the duration of one 
 
 func reachRegion(fn *ssa.Function, from ssa.Instruction, target func(ssa.Instruction) bool, blocked map[Edge]bool, barrier func(ssa.Instruction) bool, isFact func(ssa.Value) bool, known string, drop func(ssa.Instruction) bool) ([]*ssa.BasicBlock, bool) {
 	rg := RegionOf(fn)
+	defer func() { curPath = nil }()
 	var items []ritem
 	seen := map[string]bool{}
 	push := func(it ritem) {
@@ -595,6 +596,7 @@ func reachRegion(fn *ssa.Function, from ssa.Instruction, target func(ssa.Instruc
 	for qi := 0; qi < len(items); qi++ {
 		it := items[qi]
 		cur := it.b.Parent()
+		curPath = it.pf
 		stopped := false
 		for i := it.start; i < len(it.b.Instrs) && !stopped; i++ {
 			in := it.b.Instrs[i]
@@ -605,7 +607,7 @@ func reachRegion(fn *ssa.Function, from ssa.Instruction, target func(ssa.Instruc
 					nf := it.facts
 					nf[1] = nf[0]
 					nf[0] = rfact{fr.call, ret}
-					push(ritem{stack: append([]rframe{}, it.stack[:n-1]...), b: fr.blk, start: fr.idx + 1, facts: nf, k: it.k, parent: qi})
+					push(ritem{stack: append([]rframe{}, it.stack[:n-1]...), b: fr.blk, start: fr.idx + 1, facts: nf, k: it.k, pf: it.pf, parent: qi})
 				} else {
 					// exploration started inside the helper: context unknown, continue after every call site
 					for _, cs := range rg.sites[cur] {
@@ -615,7 +617,7 @@ func reachRegion(fn *ssa.Function, from ssa.Instruction, target func(ssa.Instruc
 								nf := it.facts
 								nf[1] = nf[0]
 								nf[0] = rfact{cs, ret}
-								push(ritem{b: cb, start: j + 1, facts: nf, k: it.k, parent: qi})
+								push(ritem{b: cb, start: j + 1, facts: nf, k: it.k, pf: it.pf, parent: qi})
 							}
 						}
 					}
@@ -633,7 +635,7 @@ func reachRegion(fn *ssa.Function, from ssa.Instruction, target func(ssa.Instruc
 			if ci, ok := in.(ssa.CallInstruction); ok {
 				if g := HelperCallee(cur, ci); g != nil && rg.in[g] && g != rg.Root && g != cur && !onStack(it.stack, g) && len(it.stack) < regionDepth {
 					ns := append(append([]rframe{}, it.stack...), rframe{ci, it.b, i})
-					push(ritem{stack: ns, b: g.Blocks[0], start: 0, facts: it.facts, k: it.k, parent: qi})
+					push(ritem{stack: ns, b: g.Blocks[0], start: 0, facts: it.facts, k: it.k, pf: it.pf, parent: qi})
 					stopped = true
 					break
 				}
@@ -647,8 +649,12 @@ func reachRegion(fn *ssa.Function, from ssa.Instruction, target func(ssa.Instruc
 		}
 		// successors, pruned by what is known about helper results
 		feasible := [2]bool{true, true}
-		if ifi := BlockIf(it.b); ifi != nil && (it.facts[0].call != nil || it.facts[1].call != nil) {
-			if v, known := evalCond(ifi.Cond, ifi, it.facts); known {
+		if ifi := BlockIf(it.b); ifi != nil {
+			v, known := evalCondPath(ifi.Cond, it.pf)
+			if !known && (it.facts[0].call != nil || it.facts[1].call != nil) {
+				v, known = evalCond(ifi.Cond, ifi, it.facts)
+			}
+			if known {
 				if v {
 					feasible[1] = false
 				} else {
@@ -683,7 +689,12 @@ func reachRegion(fn *ssa.Function, from ssa.Instruction, target func(ssa.Instruc
 					}
 				}
 			}
-			push(ritem{stack: it.stack, b: s, start: 0, facts: it.facts, k: nk, parent: qi})
+			npf, okE := learnEdge(rg, it.pf, Edge{it.b, si})
+			if !okE {
+				continue // the edge contradicts what this path has already established
+			}
+			npf = enterBlock(npf, it.b, s)
+			push(ritem{stack: it.stack, b: s, start: 0, facts: it.facts, k: nk, pf: npf, parent: qi})
 		}
 	}
 	return nil, false
@@ -712,6 +723,7 @@ func (x *Explorer) Run(init string) {
 		return
 	}
 	rg := RegionOf(fn)
+	defer func() { curPath = nil }()
 	var items []ritem
 	seen := map[string]bool{}
 	push := func(it ritem) {
@@ -737,6 +749,7 @@ func (x *Explorer) Run(init string) {
 	for qi := 0; qi < len(items) && len(items) < 200000; qi++ {
 		it := items[qi]
 		cur := it.b.Parent()
+		curPath = it.pf
 		state := it.k
 		stopped := false
 		for i := it.start; i < len(it.b.Instrs) && !stopped; i++ {
@@ -747,7 +760,7 @@ func (x *Explorer) Run(init string) {
 					nf := it.facts
 					nf[1] = nf[0]
 					nf[0] = rfact{fr.call, ret}
-					push(ritem{stack: append([]rframe{}, it.stack[:n-1]...), b: fr.blk, start: fr.idx + 1, facts: nf, k: state, parent: qi})
+					push(ritem{stack: append([]rframe{}, it.stack[:n-1]...), b: fr.blk, start: fr.idx + 1, facts: nf, k: state, pf: it.pf, parent: qi})
 				}
 				stopped = true
 				break
@@ -766,7 +779,7 @@ func (x *Explorer) Run(init string) {
 			}
 			if enter != nil {
 				nst := append(append([]rframe{}, it.stack...), rframe{in.(ssa.CallInstruction), it.b, i})
-				push(ritem{stack: nst, b: enter.Blocks[0], start: 0, facts: it.facts, k: state, parent: qi})
+				push(ritem{stack: nst, b: enter.Blocks[0], start: 0, facts: it.facts, k: state, pf: it.pf, parent: qi})
 				stopped = true
 				break
 			}
@@ -775,8 +788,12 @@ func (x *Explorer) Run(init string) {
 			continue
 		}
 		feasible := [2]bool{true, true}
-		if ifi := BlockIf(it.b); ifi != nil && (it.facts[0].call != nil || it.facts[1].call != nil) {
-			if v, known := evalCond(ifi.Cond, ifi, it.facts); known {
+		if ifi := BlockIf(it.b); ifi != nil {
+			v, known := evalCondPath(ifi.Cond, it.pf)
+			if !known && (it.facts[0].call != nil || it.facts[1].call != nil) {
+				v, known = evalCond(ifi.Cond, ifi, it.facts)
+			}
+			if known {
 				if v {
 					feasible[1] = false
 				} else {
@@ -796,7 +813,12 @@ func (x *Explorer) Run(init string) {
 					continue
 				}
 			}
-			push(ritem{stack: it.stack, b: s, start: 0, facts: it.facts, k: ns, parent: qi})
+			npf, okE := learnEdge(rg, it.pf, Edge{it.b, si})
+			if !okE {
+				continue
+			}
+			npf = enterBlock(npf, it.b, s)
+			push(ritem{stack: it.stack, b: s, start: 0, facts: it.facts, k: ns, pf: npf, parent: qi})
 		}
 	}
 }
